@@ -145,6 +145,38 @@ Theorem C29_join_early_exit_leaks_producer_refuted :
 Proof. exact join_leak_forever. Qed.
 Print Assumptions C29_join_early_exit_leaks_producer_refuted.
 
+(* Early return (LIMIT above the join, an error of a source, a failing produce or key expression): the step in
+   which the main loop receives the error message / the message whose processing fails is a step of the main
+   loop alone and its result is final — Run HAS RETURNED.  It needs no further step of either producer, and it
+   leaves the producers exactly as they were (same sends completed, same program counters, the other channel
+   untouched): a producer that was blocked on a full channel is still blocked.  (A variant of the code that
+   waits for the producers before returning is not this LTS: the conformance replay below rejects its runs and
+   the wall-clock oracle flags them.) *)
+Theorem C29_join_early_return_needs_no_producer : forall p s d s',
+  n_m s <> MRet -> nstep p s (NRecv d) = Some s' ->
+  (hd_error (p_ch (nget s d)) = Some MErr \/ np_fail p = Some (n_acts s)) ->
+  nfinalb s' = true /\
+  p_sent (nget s' SL) = p_sent (nget s SL) /\ p_sent (nget s' SR) = p_sent (nget s SR) /\
+  p_pc (nget s' SL) = p_pc (nget s SL) /\ p_pc (nget s' SR) = p_pc (nget s SR) /\
+  p_ch (nget s' (other d)) = p_ch (nget s (other d)) /\
+  p_ch (nget s d) = (match hd_error (p_ch (nget s d)) with Some m => m | None => MData end) :: p_ch (nget s' d).
+Proof. exact join_early_return_alone. Qed.
+Print Assumptions C29_join_early_return_needs_no_producer.
+
+(* Once Run has returned it stays returned whatever the producers do or cannot do, and the main loop never moves again. *)
+Theorem C29_join_returned_is_stable : forall p s l s', nstep p s l = Some s' -> nfinalb s = true ->
+  nfinalb s' = true /\ is_main_label l = false.
+Proof. exact nfinal_stable. Qed.
+Print Assumptions C29_join_returned_is_stable.
+
+(* What the join tie computes: an accepted replay (main-loop events as observed through verifJoinRecv, producer
+   sends filled in eagerly, k sends at a time) is a run of the LTS from the initial state into a reachable final state. *)
+Theorem C29_join_replay_sound : forall c, c29j_tie c = true ->
+  nvalid (c29j_params c) /\
+  exists s, nrun (c29j_params c) ninit (nexpand (kj_trace c)) = Some s /\ nreach (c29j_params c) s /\ nfinalb s = true.
+Proof. exact c29j_tie_sound. Qed.
+Print Assumptions C29_join_replay_sound.
+
 Example C29_join_hypotheses_satisfiable :
   let p := mknparams 2 1 false true 1 None in
   nvalid p /\ exists s, nrun p ninit [NSend SL; NSend SR; NRecv SR; NErr SR; NRecv SL; NSend SL; NRecv SR] = Some s /\ nfinalb s = true.
